@@ -44,6 +44,8 @@ class SockWorld:
         self.on_disconnect_hooks = []
         self.conn_delays = []     # a connection subscriber that takes its time on connected=True
         self.msg_delays = []
+        self.descs = []
+        self.mutate_msgs = False
         self.sock.subscribe_on_message_received(self._on_msg)
         self.sock.subscribe_on_connection_changed(self._on_conn)
 
@@ -108,7 +110,13 @@ class SockWorld:
                 await asyncio.sleep(0)
         cur = self.net.current()
         self.msgs.append((cur.id if cur else None, hdr, msg))
+        self.descs.append(describe(hdr, msg))     # as delivered, at this very moment
         self.log.add("SUB.msg", hdr=repr(hdr), msg=repr(msg))
+        if self.mutate_msgs:
+            # an application that works on the objects it is handed (filters a list,
+            # rounds a value): they are its own
+            _scramble(msg)
+            _scramble(hdr)
         if self.raise_in_msg_sub == 2:
             fut = self.loop.create_future()   # (see harness.Sub: raises == "cancelled")
             fut.cancel()
@@ -145,6 +153,34 @@ class SockWorld:
     async def close(self):
         await self.sock.close()
         await quiesce(self.loop)
+
+
+def _scramble(obj, depth=0):
+    """Change a (dataclass) message object in place, every field."""
+    import dataclasses
+    if depth > 4 or not dataclasses.is_dataclass(obj) or isinstance(obj, type):
+        return
+    for f in dataclasses.fields(obj):
+        try:
+            v = getattr(obj, f.name)
+            if dataclasses.is_dataclass(v) and not isinstance(v, type):
+                _scramble(v, depth + 1)
+            elif isinstance(v, list):
+                for x in v:
+                    _scramble(x, depth + 1)
+                del v[len(v) // 2:]
+            elif isinstance(v, dict):
+                v.clear()
+            elif isinstance(v, bool):
+                setattr(obj, f.name, not v)
+            elif isinstance(v, (int, float)):
+                setattr(obj, f.name, 0)
+            elif isinstance(v, str):
+                setattr(obj, f.name, "edited by the application")
+            elif isinstance(v, (bytes, bytearray)):
+                setattr(obj, f.name, b"")
+        except Exception:  # noqa: BLE001  (frozen / read-only fields stay as they are)
+            pass
 
 
 def describe(hdr, msg):
